@@ -144,7 +144,7 @@ Abort(fv, at) ==
     /\ UNCHANGED <<wait, mode, polled, last, lastLost, snap, sawUniform>>
 
 Next == \/ \E s \in Snaps, at \in 0..Horizon : Poll(s, at)
-        \/ \E at \in 0..Horizon, end \in 1..Horizon : PollLost(at, end)
+        \/ \E at \in 0..Horizon : \E end \in {at + 1, at + 3, Horizon} : end <= Horizon /\ PollLost(at, end)
         \/ \E v \in {"yes", "no"}, at \in 0..Horizon : Finish(v, at)
         \/ \E fv \in {"n/a", "no"}, at \in 0..Horizon : Abort(fv, at)
 Spec == Init /\ [][Next]_vars /\ WF_vars(Next)
